@@ -959,7 +959,12 @@ theorem parseRevocation_ok {now : Int} {r : ResHttpReq} {p : ResProvider} {tok h
           cases hv : Gen.VerifyJWTAssertion now r.assertionToken p.jwtProfileVerifier with
           | error e => simp [hv] at h
           | ok c =>
-            simp [hv] at h
+            simp only [hv] at h
+            -- the assertion's issuer must be registered for private_key_jwt (checkPrivateKeyJWTClient)
+            cases hpk : GenRes.checkPrivateKeyJWTClient now c.Issuer p.clientStore with
+            | error e => simp [hpk] at h
+            | ok _ =>
+            simp [hpk] at h
             refine ⟨h.1.symm, h.2.1.symm, Or.inl ⟨by simpa using hat, ?_, c, hv, h.2.2⟩⟩
             simp at hsup; exact hsup.2
       · simp only [hat, Bool.false_eq_true, if_false] at h
@@ -978,7 +983,12 @@ theorem parseRevocation_ok {now : Int} {r : ResHttpReq} {p : ResProvider} {tok h
               cases ha : Gen.AuthorizeClientIDSecret now cid' sec p.clientStore with
               | error e => simp [ha] at h
               | ok _ =>
-                simp [ha] at h
+                simp only [ha] at h
+                -- a client_secret_post client needs the method to be enabled (checkAuthMethodPost)
+                cases hpost : GenRes.checkAuthMethodPost now cid' p with
+                | error e => simp [hpost] at h
+                | ok _ =>
+                simp [hpost] at h
                 obtain ⟨h1, h2, rfl⟩ := h
                 exact ⟨h1.symm, h2.symm, Or.inr (Or.inl ⟨u, pw, sec, hb, hq1, hq2, ha⟩)⟩
         | none =>
